@@ -15,6 +15,7 @@ type c14Case struct {
 	C, P, S, L int    // root of P frames (full length); parent = root.Slice(S, S+L) (or the root itself when Whole)
 	Whole      bool
 	Chan       int
+	R          int // samples appended to the window afterwards (partly filled last frame)
 }
 
 func c14Run(cs c14Case) (fs []F) {
@@ -33,6 +34,11 @@ func c14Run(cs c14Case) (fs []F) {
 		parent = root.Slice(cs.S, cs.S+cs.L)
 	}
 	off := cs.C * cs.S
+	for k := 0; k < cs.R; k++ {
+		parent.AppendSample(dyn.Tok(t, st.cells[off+cs.C*cs.L+k])) // rewrites the value already there
+	}
+	plen := cs.C*cs.L + cs.R
+	wantLen := ceilDiv(plen, cs.C)
 	var ch dyn.Chan
 	if p, msg := dyn.Try(func() { ch = parent.Channel(cs.Chan) }); p {
 		fail("panic", "Channel panicked: %s", msg)
@@ -41,15 +47,18 @@ func c14Run(cs c14Case) (fs []F) {
 	if g := ch.Channels(); g != 1 {
 		fail("shape", "Channels() = %d, want 1", g)
 	}
-	if g, w := ch.Length(), parent.Length(); g != w || g != cs.L {
-		fail("shape", "Length() = %d, parent %d, model %d", g, w, cs.L)
+	if g, w := ch.Length(), parent.Length(); g != w || g != wantLen {
+		fail("shape", "Length() = %d, parent %d, model %d", g, w, wantLen)
 	}
 	if g, w := ch.Capacity(), parent.Capacity(); g != w || g != cs.P-cs.S {
 		fail("shape", "Capacity() = %d, parent %d, model %d", g, w, cs.P-cs.S)
 	}
 	tok := int64(len(st.cells) + 1)
-	for i := 0; i < cs.L; i++ {
+	for i := 0; i < wantLen; i++ {
 		pos := cs.C*i + cs.Chan // the model's interleaved position inside the parent
+		if pos >= plen {
+			continue // the last frame is partly filled and does not hold this channel's sample
+		}
 		var got dyn.Val
 		if p, msg := dyn.Try(func() { got = ch.Sample(i) }); p {
 			fail("sample-panic", "Sample(%d) panicked: %s", i, msg)
@@ -88,6 +97,11 @@ func init() {
 							for extra := 0; extra <= 1; extra++ {
 								for ch := 0; ch < C; ch++ {
 									cases = append(cases, c14Case{Type: tn(t), C: C, P: S + L + extra, S: S, L: L, Chan: ch})
+									if extra == 1 {
+										for r := 1; r < C; r++ {
+											cases = append(cases, c14Case{Type: tn(t), C: C, P: S + L + extra, S: S, L: L, Chan: ch, R: r})
+										}
+									}
 								}
 							}
 						}
@@ -100,11 +114,11 @@ func init() {
 				}
 			}
 			c.ParallelFor(len(cases), func(i int) {
-				c.Check(cases[i], cases[i].L > 0, c14Run(cases[i]))
+				c.Check(cases[i], cases[i].L > 0 || cases[i].R > 0, c14Run(cases[i]))
 			})
 			c.Sample(cases[100])
 			c.Sample(cases[len(cases)-1])
-			c.Set("rule", "13 element types x C in 1..8 x parent = whole buffer of 0..3 frames or window [S,S+L) (S in 0..2, L in 0..3, with and without a spare frame after it) x every channel c; inside a case every index i < Length is read, its BufferIndex taken, written with a fresh token (whole storage diffed) and read back; non-trivial = Length > 0; cases distinct by construction")
+			c.Set("rule", "13 element types x C in 1..8 x parent = whole buffer of 0..3 frames or window [S,S+L) (S in 0..2, L in 0..3, with and without a spare frame after it, and with 1..C-1 samples appended into that spare frame: partly filled last frame) x every channel c; inside a case every index i < Length is read, its BufferIndex taken, written with a fresh token (whole storage diffed) and read back; non-trivial = Length > 0; cases distinct by construction")
 			c.Assume("windows are taken with Slice (C02)")
 		},
 		RunCase: func(c *core.Ctx, raw json.RawMessage) []F { return c14Run(decode[c14Case](raw)) },
